@@ -473,7 +473,11 @@ func (ex *Explorer) Run(runPath func() *PathResult) *Report {
 				v.Stack = res.Stack
 			}
 		case "DEADLOCK":
-			ex.recordViolation(ex.vm, nil, "deadlock", res.Msg, res.Pos, nil)
+			dl, dm := "deadlock", res.Msg
+			if i := strings.IndexByte(dm, 0); i >= 0 {
+				dl, dm = dm[:i], dm[i+1:]
+			}
+			ex.recordViolation(ex.vm, nil, dl, dm, res.Pos, nil)
 		default: // UNSUPPORTED, BUDGET, UNWIND, ENGINE
 			msg := fmt.Sprintf("%s: %s @%s", res.Kind, res.Msg, res.Pos)
 			if len(ex.Inconclusive) < 20 {
